@@ -491,6 +491,13 @@ class PipeInput : public Engine {
             g.set("card", r.chance(1, 2) ? nr : r.pick(counts));
             g.set("short", r.chance(1, 3) ? r.range(1, 5) : 0); // bytes missing from the payload
             g.set("fillseed", r.next() & 0xffff);
+            if (r.chance(1, 3)) {
+                // the same for an ARRAY container: cardinalities the library itself never serialises
+                static const uint64_t cards[] = {0, 1, 4095, 4096, 4097, 4098, 6000, 8192, 8193, 32768, 65535, 65536, 65537};
+                g.set("ctype", 0);
+                g.set("card", r.pick(cards));
+                g.set("runs", 0);
+            }
             p.ops.push_back(g);
         }
         // hostile bytes from scratch
@@ -545,6 +552,23 @@ class PipeInput : public Engine {
                 size_t cap = (size_t)f.u("cap", 16);
                 size_t gbits = std::min<size_t>(f.u("bits", in.size() * 8), in.size() * 8);
                 if (!one_case(entry, "garbage", in, gbits, cap, oi, out)) return finish(out);
+                continue;
+            }
+            if (f.kind == "runtable" && f.has("ctype") && f.u("ctype") == 0) {
+                uint32_t card = (uint32_t)f.u("card");
+                size_t payload = (size_t)std::min<uint64_t>(card, 70000) * 2;
+                size_t cut = std::min<size_t>(f.u("short"), payload);
+                in.assign(5 + payload - cut, 0);
+                in[0] = 0; // ARRAY
+                memcpy(&in[1], &card, 4);
+                Rng fr(f.u("fillseed") + 9);
+                uint32_t v = 0;
+                for (size_t q = 0; q + 2 <= payload - cut; q += 2) { // ascending values
+                    uint16_t v16 = (uint16_t)v;
+                    memcpy(&in[5 + q], &v16, 2);
+                    v += 1 + (uint32_t)fr.below(payload > 60000 ? 1 : 3);
+                }
+                if (!one_case(entry, "arraytable", in, 0, 0, oi, out)) return finish(out);
                 continue;
             }
             if (f.kind == "runtable") {
@@ -728,8 +752,14 @@ class PipeCapacity : public Engine {
             for (auto &x : v) x &= 0xffffffffULL;
         if (d == "bp128d.32") std::sort(v.begin(), v.end());
         if (d == "bp128d.64") {
-            for (auto &x : v) x >>= 1;
-            std::sort(v.begin(), v.end());
+            if (r.chance(1, 3)) {
+                // one delta as wide as the type: a single gap of 2^63 or more inside a block
+                if (n < 130 && r.chance(2, 3)) n = r.range(130, 400);
+                v = gen_array(r, n, ARR_BIGSTEP);
+            } else {
+                for (auto &x : v) x >>= 1;
+                std::sort(v.begin(), v.end());
+            }
         }
         op.mkarr("values") = v;
         p.ops.push_back(op);
